@@ -200,6 +200,9 @@ type Setup struct {
 	Spec       *quic.QUICSpec // nil: plain Transport
 	Qlog       bool
 	MTU        int // link MTU in bytes; 0 = unlimited (65535)
+	// optional: adjust the transports before Listen / Dial (e.g. VerifySourceAddress, ConnectionIDLength)
+	ServerTransport func(*quic.Transport)
+	ClientTransport func(*quic.Transport)
 }
 
 // Env is a running scenario.
@@ -284,12 +287,18 @@ func Start(s Setup) (*Env, error) {
 	}
 	e.ClientCfg = cconf
 	e.ServerTr = &quic.Transport{Conn: spc}
+	if s.ServerTransport != nil {
+		s.ServerTransport(e.ServerTr)
+	}
 	ln, err := e.ServerTr.Listen(stls, sconf)
 	if err != nil {
 		return nil, err
 	}
 	e.Listener = ln
 	e.ClientTr = &quic.Transport{Conn: cpc}
+	if s.ClientTransport != nil {
+		s.ClientTransport(e.ClientTr)
+	}
 	if s.Spec != nil {
 		e.ClientUTr = &quic.UTransport{Transport: e.ClientTr, QUICSpec: s.Spec}
 	}
